@@ -6,7 +6,7 @@
    (inode classes) come from the generic invariants of Proofs/ApplyInoP.v. *)
 From Coq Require Import List NArith Lia Bool Sorting.Sorted.
 From FS Require Import Sx Model.Path Model.Stat Model.Diff Model.AbsDest Model.Converge Model.ConvergeA
-  Proofs.Lex Proofs.PathP Proofs.DiffP Proofs.AbsDestP Proofs.ReceiveP Proofs.ApplyInoP Proofs.OracleP.
+  Proofs.Lex Proofs.PathP Proofs.DiffP Proofs.DiffSpecP Proofs.AbsDestP Proofs.ReceiveP Proofs.ApplyInoP Proofs.OracleP.
 Import ListNotations.
 Open Scope N_scope.
 Open Scope bool_scope.
@@ -88,7 +88,7 @@ Proof.
 Qed.
 
 Lemma link_meta_eqb_iff t s : link_meta_eqb t s = true <-> link_meta_eq t s.
-Proof. unfold link_meta_eqb, link_meta_eq. rewrite !andb_true_iff, !N.eqb_eq. tauto. Qed.
+Proof. unfold link_meta_eqb, link_meta_eq. rewrite !andb_true_iff, !N.eqb_eq, DiffSpecP.xattrs_eqb_eq. tauto. Qed.
 
 Lemma links_canon_b_sound B : links_canon_b B = true -> links_canon B.
 Proof.
@@ -346,6 +346,31 @@ Proof.
   intros Hcr' _. rewrite (Hcr Hcr'). reflexivity.
 Qed.
 
+(* a link entry that is unchanged has an unchanged target: the old listing holds a canonical link
+   pair at the same two paths with the same identity keys *)
+Lemma unchanged_link_target s c a ba st bt :
+  In (s, c) B -> is_hardlink s = true -> In (a, ba) A -> st_path a = st_path s -> same_file d a s = true ->
+  In (st, bt) B -> st_path st = st_linkname s -> st_linkname st = [] -> link_meta_eq st s ->
+  exists at_ bat, In (at_, bat) A /\ st_path at_ = st_path st /\ same_file d at_ st = true /\
+                  is_hardlink a = true /\ st_linkname a = st_path at_ /\ st_linkname at_ = [] /\
+                  compare_path (st_path at_) (st_path a) = Lt.
+Proof.
+  intros Hin Hh Ha Ea Es Ht Ep Ent Hmeta.
+  destruct (same_file_fields _ _ _ Es) as (Ed & Hc & Hnd).
+  destruct (compare_stat_fields _ _ Hc) as (Em & Eu & Eg & Ema & Emi & Eln).
+  assert (Hha : is_hardlink a = true) by (rewrite (is_hardlink_cong a s Em Eln); auto).
+  destruct (HlA a ba Ha Hha) as (at_ & bat & Hat & Epa & Hlta & Hrta & Enta & Hma & _).
+  destruct Hmeta as (M1 & M2 & M3 & M4 & M5 & M6 & M7 & _).
+  destruct Hma as (N1 & N2 & N3 & N4 & N5 & N6 & N7 & _).
+  assert (Hda : st_is_dir a = false) by (apply is_reg_not_dir; apply is_hardlink_reg; auto).
+  destruct (Hnd Hda) as [Esz Emt].
+  exists at_, bat. split; auto. split; [congruence|]. split; [|auto].
+  rewrite Ed. apply same_file_intro.
+  - unfold compare_stat. rewrite N1, N2, N3, N6, N7, Enta, Em, Eu, Eg, Ema, Emi, <- M1, <- M2, <- M3, <- M6, <- M7, Ent.
+    rewrite !N.eqb_refl. reflexivity.
+  - intros _. rewrite N4, N5, Esz, Emt, M4, M5. auto.
+Qed.
+
 (* every regular entry shows the inode class of the first name of its link group, which is not
    a link *)
 Lemma fresh_rep s c x : In (s, c) B -> AbsDest.is_reg s = true -> alookup (st_path s) R = Some x ->
@@ -369,30 +394,17 @@ Proof.
     assert (Hb : In s LB) by (apply (in_map fst _ _ Hin)).
     destruct (fresh_cases s Hb) as [(a & Ha & Ea & Es)|(k & Hk & Hd)].
     + (* the link entry is unchanged: so is its target, and the old map has them in one class *)
-      destruct (same_file_fields _ _ _ Es) as (Ed & Hc & Hnd).
-      destruct (compare_stat_fields _ _ Hc) as (Em & Eu & Eg & Ema & Emi & Eln).
-      assert (Hha : is_hardlink a = true) by (rewrite (is_hardlink_cong a s Em Eln); auto).
       apply in_map_iff in Ha. destruct Ha as ([a' ba] & E1 & Ha). simpl in E1. subst a'.
-      destruct (HlA a ba Ha Hha) as (at_ & bat & Hat & Epa & Hlta & Hrta & Enta & Hma & _).
-      destruct Hmeta as (M1 & M2 & M3 & M4 & M5 & M6 & M7).
-      destruct Hma as (N1 & N2 & N3 & N4 & N5 & N6 & N7).
-      assert (Hda : st_is_dir a = false) by (apply is_reg_not_dir; apply is_hardlink_reg; auto).
-      destruct (Hnd Hda) as [Esz Emt].
-      assert (Hsame : same_file d at_ st = true).
-      { rewrite Ed. apply same_file_intro.
-        - unfold compare_stat. rewrite N1, N2, N3, N6, N7, Enta, Em, Eu, Eg, Ema, Emi, <- M1, <- M2, <- M3, <- M6, <- M7, Ent.
-          rewrite !N.eqb_refl. reflexivity.
-        - intros _. rewrite N4, N5, Esz, Emt, M4, M5. auto. }
+      destruct (unchanged_link_target s c a ba st bt Hin Hh Ha Ea Es Ht Ep Ent Hmeta)
+        as (at_ & bat & Hat & Epa & Hsame & Hha & Ela & Enta & Hlta).
       assert (Hun : unchanged d A B (st_path st)).
-      { exists at_, st. split; [apply (in_map fst _ _ Hat)|]. split; [apply (in_map fst _ _ Ht)|].
-        split; [congruence|]. split; auto. }
+      { exists at_, st. split; [apply (in_map fst _ _ Hat)|]. split; [apply (in_map fst _ _ Ht)|]. auto. }
       assert (Hus : unchanged d A B (st_path s)).
       { exists a, s. split; [apply (in_map fst _ _ Ha)|]. split; auto. }
       rewrite (fresh_unchanged _ Hun) in Hxt. rewrite (fresh_unchanged _ Hus) in Hx.
       destruct HwA as [HsA _].
-      destruct (dest_of_link A a ba at_ bat HsA Ha Hat Hha (eq_sym Epa) Enta Hlta) as (t' & e' & Ht' & He' & Ei).
-      assert (E1 : st_path at_ = st_path st) by congruence.
-      rewrite E1, Hxt in Ht'. rewrite Ea, Hx in He'. inversion Ht'; inversion He'; subst. auto.
+      destruct (dest_of_link A a ba at_ bat HsA Ha Hat Hha Ela Enta Hlta) as (t' & e' & Ht' & He' & Ei).
+      rewrite Epa, Hxt in Ht'. rewrite Ea, Hx in He'. inversion Ht'; inversion He'; subst. auto.
     + destruct (fresh_changed k s Hk Hd) as (e & He & _ & Hl).
       rewrite Hx in He. inversion He; subst e.
       destruct (Hl Hh) as (t' & Ht' & Ei); [rewrite <- Ep; exact Hlt|].
@@ -413,6 +425,90 @@ Proof.
   - intros Ei. destruct (list_eq_dec N.eq_dec (group_rep s1) (group_rep s2)) as [E|E]; auto.
     exfalso. apply (fresh_nonlink_inj _ _ _ _ E T1 T2 L1 L2 Ei).
   - intros E. rewrite E, T2 in T1. inversion T1; subst. reflexivity.
+Qed.
+
+Lemma fresh_nodup_keys : nodup_keys R.
+Proof.
+  destruct fresh_run as [nR E]. destruct HwA as [HsA _].
+  eapply apply_all_nodup_keys; [exact E|].
+  unfold nodup_keys, dest_of.
+  assert (Hk : forall A0 i seen, map fst (dest_from A0 i seen) = map (fun e => st_path (fst e)) A0).
+  { induction A0 as [|[st bs] A0 IH]; intros i seen; simpl; [reflexivity|]. rewrite IH. reflexivity. }
+  rewrite Hk. apply sorted_nodup_paths; auto.
+Qed.
+
+(* not created: some entry of the same type is listed at the path *)
+Lemma not_created_if_same_file a s : In a LA -> st_path a = st_path s -> same_file d a s = true ->
+  created_by_transfer A s = false.
+Proof.
+  intros Ha Ea Es. unfold created_by_transfer.
+  destruct (find_entry (st_path s) A) as [[ps pc]|] eqn:Ef.
+  - apply find_entry_some in Ef. destruct Ef as [Hps Ep]. simpl in Ep.
+    assert (ps = a).
+    { destruct HwA as [HsA _]. apply (sorted_unique LA); auto; [apply (in_map fst _ _ Hps)|congruence]. }
+    subst ps. apply negb_false_iff. unfold same_type. rewrite (same_file_mode _ _ _ Es). apply N.eqb_refl.
+  - exfalso. apply in_map_iff in Ha. destruct Ha as ([a' ba] & E1 & Ha). simpl in E1. subst a'.
+    eapply (find_entry_none _ _ Ef (a, ba)); eauto.
+Qed.
+
+(* xattrs per inode: when the inode shown at a regular entry was created by this transfer, EVERY
+   name of that inode class in the final map carries the xattrs of that entry's stat *)
+Lemma fresh_group_xattrs s c x : In (s, c) B -> Converge.is_reg s = true -> inode_created A B s = true ->
+  alookup (st_path s) R = Some x ->
+  forall q v, In (q, v) R -> de_ino v = de_ino x -> st_xattrs (de_stat v) = st_xattrs s.
+Proof.
+  intros Hin Hcreg Hic Hx q v Hqv Hino. pose proof (conv_reg_abs_reg _ Hcreg) as Hreg.
+  pose proof (nodup_keys_lookup R q v fresh_nodup_keys Hqv) as Hq.
+  pose proof HwB as [HsB HcB].
+  (* the first name of the group of s *)
+  assert (Hrep : exists srep crep erep, In (srep, crep) B /\ st_path srep = group_rep s /\
+            created_by_transfer A srep = true /\ alookup (st_path srep) R = Some erep /\
+            de_ino erep = de_ino x /\ is_hardlink (de_stat erep) = false /\ st_xattrs srep = st_xattrs s).
+  { unfold inode_created in Hic. apply andb_true_iff in Hic. destruct Hic as [Hc1 Hc2].
+    destruct (fresh_rep s c x Hin Hreg Hx) as (t & Ht & Hit & Htn).
+    unfold group_rep in *. destruct (st_linkname s) as [|l0 l] eqn:El.
+    - exists s, c, t. repeat split; auto.
+    - assert (Hh : is_hardlink s = true) by (unfold is_hardlink; rewrite Hreg, El; reflexivity).
+      destruct (HlB s c Hin Hh) as (st & bt & Hst & Ep & _ & _ & _ & Hmeta & _).
+      rewrite El in Ep. rewrite Hcreg in Hc2.
+      destruct (find_entry (l0 :: l) B) as [[t' ct']|] eqn:Ef; [|discriminate].
+      apply find_entry_some in Ef. destruct Ef as [Ht' Ep']. simpl in Ep'.
+      assert (t' = st).
+      { apply (sorted_unique LB); auto; [apply (in_map fst _ _ Ht')|apply (in_map fst _ _ Hst)|congruence]. }
+      subst t'. exists st, bt, t. rewrite Ep. repeat split; auto. apply Hmeta. }
+  destruct Hrep as (srep & crep & erep & Hsrep & EP & Hcr & Herep & Hirep & Hnrep & Exr).
+  destruct (fresh_created srep crep Hsrep Hcr) as (e' & He' & Es'). rewrite Herep in He'. inversion He'; subst e'.
+  destruct (list_eq_dec N.eq_dec q (st_path srep)) as [Eq|Nq].
+  { subst q. rewrite Herep in Hq. inversion Hq; subst v. rewrite Es'. exact Exr. }
+  (* another name of that inode: a link entry of the group *)
+  pose proof (fresh_view q) as Hv. rewrite Hq in Hv.
+  destruct (efind q B) as [[sq cq]|] eqn:Efq; [|destruct Hv]. unfold view_equiv in Hv. destruct Hv as [Hsf _].
+  apply efind_some in Efq. destruct Efq as [Hsq Epq]. simpl in Epq.
+  destruct (same_file_fields _ _ _ Hsf) as (_ & Hcs & _).
+  destruct (compare_stat_fields _ _ Hcs) as (Em & _ & _ & _ & _ & Eln).
+  destruct (is_hardlink (de_stat v)) eqn:Hhv.
+  2:{ exfalso. apply (fresh_nonlink_inj q (st_path srep) v erep Nq Hq Herep Hhv Hnrep). congruence. }
+  assert (Hhq : is_hardlink sq = true) by (rewrite <- (is_hardlink_cong _ _ Em Eln); auto).
+  destruct (is_hardlink_reg _ Hhq) as [Hrq Hlnq].
+  rewrite <- Epq in Hq.
+  destruct (fresh_rep sq cq v Hsq Hrq Hq) as (tq & Htq & Hitq & Hntq).
+  assert (Egr : group_rep sq = st_path srep).
+  { destruct (list_eq_dec N.eq_dec (group_rep sq) (st_path srep)) as [E|E]; auto. exfalso.
+    apply (fresh_nonlink_inj _ _ tq erep E Htq Herep Hntq Hnrep). congruence. }
+  destruct (HlB sq cq Hsq Hhq) as (st' & bt' & Hst' & Ep' & Hlt' & _ & Ent' & Hmeta' & _).
+  assert (Eg2 : group_rep sq = st_linkname sq).
+  { unfold group_rep. destruct (st_linkname sq); [congruence|reflexivity]. }
+  assert (st' = srep).
+  { apply (sorted_unique LB); auto; [apply (in_map fst _ _ Hst')|apply (in_map fst _ _ Hsrep)|congruence]. }
+  subst st'.
+  assert (Hb : In sq LB) by (apply (in_map fst _ _ Hsq)).
+  destruct (fresh_cases sq Hb) as [(a & Ha & Ea & Es)|(k & Hk & Hd)].
+  - exfalso. apply in_map_iff in Ha. destruct Ha as ([a' ba] & E1 & Ha). simpl in E1. subst a'.
+    destruct (unchanged_link_target sq cq a ba srep bt' Hsq Hhq Ha Ea Es Hst' Ep' Ent' Hmeta')
+      as (at_ & bat & Hat & Epa & Hsame & _).
+    rewrite (not_created_if_same_file at_ srep (in_map fst _ _ Hat) Epa Hsame) in Hcr. discriminate.
+  - destruct (fresh_changed k sq Hk Hd) as (e & He & Ese & _). rewrite Hq in He. inversion He; subst e.
+    rewrite Ese. destruct Hmeta' as (_ & _ & _ & _ & _ & _ & _ & Ex'). congruence.
 Qed.
 
 Theorem diff_apply_converges_proof : ds_err r = false /\ approx A B (view_of R).
